@@ -15,3 +15,27 @@ Proof. unfold observe. now rewrite run_priv. Qed.
 
 Lemma rebuild_same w : step w Rebuild = w.
 Proof. reflexivity. Qed.
+
+(* a call never writes an existing array: every array the caller held before is unchanged *)
+Lemma api_frame w args f k : k < length (user w) ->
+  nth k (user (api_call w args f)) [] = nth k (user w) [].
+Proof. intros H. unfold api_call. cbn [user]. now rewrite app_nth1. Qed.
+
+(* the result depends on the argument VALUES only: equal argument values, equal results,
+   whatever else the two worlds contain *)
+Lemma api_deterministic w w' args f :
+  map (fun k => nth k (user w) []) args = map (fun k => nth k (user w') []) args ->
+  skipn (length (user w)) (user (api_call w args f)) = skipn (length (user w')) (user (api_call w' args f)).
+Proof.
+  intros H. unfold api_call. cbn [user].
+  rewrite !skipn_app, !Nat.sub_diag, !skipn_all. cbn [skipn app]. now rewrite H.
+Qed.
+
+(* calls compose: after any sequence of calls, all originally held arrays are unchanged *)
+Lemma api_calls_frame (calls : list (list nat * (list (list Z) -> list (list Z)))) : forall w k,
+  k < length (user w) ->
+  nth k (user (fold_left (fun w c => api_call w (fst c) (snd c)) calls w)) [] = nth k (user w) [].
+Proof.
+  induction calls as [|c cs IH]; intros w k H; simpl; [reflexivity|].
+  rewrite IH; [apply api_frame; exact H|]. unfold api_call. cbn [user]. rewrite app_length. apply Nat.lt_lt_add_r. exact H.
+Qed.
